@@ -56,16 +56,18 @@ def unary_case(op, t):
     return src, 'accept' if ok else 'reject:550', '%s%s' % (op, t)
 
 
-def call_case(params, args, kind):
+def call_case(params, args, kind, noaddr=None):
     ps = ', '.join('p%d: %s' % (i, t) for i, t in enumerate(params))
     xs = ', '.join('x%d: %s' % (i, t) for i, t in enumerate(sorted(set(params + args))))
     names = {t: 'x%d' % i for i, t in enumerate(sorted(set(params + args)))}
-    call = ', '.join(('&' + names[t]) if t in PTRS else names[t] for t in args)
+    call = ', '.join(('&' + names[t]) if (t in PTRS and i != noaddr) else names[t] for i, t in enumerate(args))
     src = 'fn g(%s)\n{\n}\n\nfn f(%s)\n{\n\tg(%s);\n}\n' % (ps, xs, call)
     if len(args) < len(params):
         exp = 'reject:510'
     elif len(args) > len(params):
         exp = 'reject:511'
+    elif noaddr is not None:
+        exp = 'reject:512|513'
     elif list(args) == list(params):
         exp = 'accept'
     else:
@@ -95,6 +97,10 @@ def cases(rng):
                 other = rng.choice([t for t in PRIMS if t != params[k]])
                 out.append(call_case(params, params[:k] + [other] + params[k + 1:], 'type'))
             out.append(call_case(params, params + [rng.choice(PRIMS)], 'many'))
+            ptr_pos = [i for i, t in enumerate(params) if t in PTRS]
+            for i in ptr_pos:
+                c = call_case(params, list(params), 'noaddr', noaddr=i)
+                out.append((c[0], c[1], c[2] + ' with the & missing on argument %d' % i))
     rng.shuffle(out)
     return out
 
@@ -113,7 +119,7 @@ def verdict_ok(exp, r):
     return True
 
 
-def search(deadline, rng):
+def search(deadline, rng, only=None):
     if replayrun.build()[0] is None:
         return None
     import concurrent.futures as cf
@@ -126,7 +132,7 @@ def search(deadline, rng):
         return None if verdict_ok(exp, r) else (src, exp, what, r)
 
     with cf.ThreadPoolExecutor(12) as ex:
-        for hit in ex.map(one, cases(rng)):
+        for hit in ex.map(one, [c for c in cases(rng) if only is None or only in c[2]]):
             if hit:
                 src, exp, what, r = hit
                 return {'mode': 'alpha', 'input_utf8_lossy': src, 'input_hex': src.encode().hex(), 'observed': r,
